@@ -538,4 +538,44 @@ theorem onceOK_spec (os : List Obs) (h : onceOK os = true) (i j : Nat) (fd : Fd)
     ∃ k, i < k ∧ k < j ∧ os[k]? = some (.npOpen fd) :=
   (onceFold_spec os _ h).2 i j fd hij hi hj
 
+/-! ## vocabulary of the property statements and the concrete runs used as examples / witnesses -/
+
+/-- the moves start only lifecycles of the family `Kind` (any number of them, any parameters) -/
+def FromKinds (ms : List Move) : Prop := ∀ p, Move.spawn p ∈ ms → ∃ k : Kind, p = k.prog
+
+/-- what a run looks like from outside: (all lifecycles complete?, observable trace) -/
+def outcome (A : Br → Option Bool) (envOpen : Fd → Bool) (ms : List Move) : Option (Bool × List Obs) :=
+  (run A (G.init envOpen) ms).map fun g => (g.allDone, g.obs)
+
+/-- A listener created by `CreateListener` (net.Listen → 5, duplicate → 6), closed twice (once through
+server.Close), while another goroutine is given number 6 right after netpoll closed it and number 9 was open
+elsewhere all along; in parallel an accepted connection (7) that is closed by the poller and then by the user.
+All hypotheses of the three theorems hold and 3 closes happen. -/
+def demoMoves : List Move :=
+  [ .spawn (Kind.createListener 2).prog,
+    .step 0 0 false, .step 0 0 true, .step 0 5 true,            -- not udp, Listen ok, lfd = 5
+    .step 0 0 true, .step 0 6 true, .step 0 0 true,             -- File() ok, dup = 6, SetNonblock ok
+    .spawn (Kind.accepted 2).prog,
+    .step 1 0 true, .step 1 7 true,                             -- accept ok → 7
+    .step 1 0 false, .step 1 0 true,                            -- OnPrepare does not close, register ok
+    .step 0 0 true, .step 0 0 true, .step 0 0 true,             -- ln: another Close, via server.Close, (visit)
+    .step 0 0 true,                                             -- close(6) through the os.File
+    .envOpen 6,                                                 -- adversary reuses 6
+    .step 0 0 true,                                             -- close(5) through the wrapped listener
+    .step 1 0 true, .step 1 0 false, .step 1 0 false,           -- conn: an action, not Detach, not via server
+    .step 1 0 true, .step 1 0 true,                             -- (visit finalizer) close(7)
+    .step 1 0 true, .step 1 0 false, .step 1 0 false, .step 1 0 true,  -- second run of the callbacks: no close
+    .step 0 0 true, .step 0 0 false,                            -- ln: user's own Close again: nothing to close
+    .envClose 6, .envClose 9 ]
+
+/-- Old code: `syscall.Close(ln.fd)` then `ln.file.Close()`.  Another goroutine is given the number in between:
+the second close destroys that goroutine's descriptor. -/
+def d15Moves : List Move :=
+  [ .spawn (lifeCreateListenerOld 1),
+    .step 0 0 false, .step 0 0 true, .step 0 5 true, .step 0 0 true, .step 0 6 true, .step 0 0 true,
+    .step 0 0 true, .step 0 0 false,
+    .step 0 0 true,                                             -- close(6) via the raw number
+    .envOpen 6,
+    .step 0 0 true ]                                            -- close(6) via ln.file: not netpoll's any more
+
 end Netpoll.Fd
